@@ -2,6 +2,7 @@ package checks
 
 import (
 	"fmt"
+	"strings"
 
 	"verif.local/pvmon/internal/h"
 	"verif.local/pvmon/internal/spec"
@@ -143,6 +144,9 @@ func runC12(ctx *h.Ctx) int {
 				k.Violation("missing-case-accepted", "a poryswitch has no case for the -s value and no '_' case, but the program compiled", map[string]interface{}{"output": res.Out, "switches": prog.Switches})
 				return
 			}
+			if !strings.Contains(res.ErrString(), "no poryswitch case found") {
+				k.C.Inconclusive("a program with an unmatched poryswitch is rejected for another reason: %s", rejectFamily(res.ErrString()))
+			}
 			k.Count("missing_case_rejected", 1)
 			k.Nontrivial("missing", np)
 			return
@@ -153,9 +157,14 @@ func runC12(ctx *h.Ctx) int {
 		if !res2.OK() {
 			k.Count("manual_selection_rejected: "+rejectFamily(res2.ErrString()), 1)
 			debugReject(src2, res2.ErrString())
+			if res.OK() {
+				k.Violation("accepted-only-with-poryswitch", fmt.Sprintf("the poryswitch program compiles, but the same program with the selected cases written out is rejected: %s", res2.ErrString()), map[string]interface{}{"manual": src2, "switches": prog.Switches})
+			} else {
+				rejectedValid(k, rp, res2, true)
+			}
 			return
 		}
-		if !res.OK() && spec.AnyUnmatched(prog, prog.Switches) {
+		if !res.OK() && spec.AnyUnmatched(prog, prog.Switches) && strings.Contains(res.ErrString(), "no poryswitch case found") {
 			// a poryswitch nested inside a case that is not selected has no matching case: the
 			// property can be read either way ("every poryswitch ... with no matching case
 			// compilation fails"), so a rejection is not judged
@@ -194,11 +203,22 @@ func runC12(ctx *h.Ctx) int {
 		k.Sample("pair", map[string]interface{}{"source": pr.Src, "switches": prog.Switches})
 	})
 	// the -s option of the CLI
-	ctx.RunCases("cli-switches", ctx.N(40, 400), func(k *h.Case) {
+	ctx.RunCases("cli-switches", ctx.N(60, 600), func(k *h.Case) {
 		g := spec.NewGen(k.R, prof)
 		prog := g.FullProgram(1 + k.R.IntN(3))
 		for _, key := range prof.PoryKeys {
-			prog.Switches[key] = vals[k.R.IntN(len(vals))]
+			v := vals[k.R.IntN(len(vals))]
+			switch k.R.IntN(6) {
+			case 0:
+				v = "'" + v + "'" // quotes, blanks and case are part of the value: such a value names no case
+			case 1:
+				v = "\"" + v + "\""
+			case 2:
+				v = " " + v
+			case 3:
+				v = strings.ToLower(v)
+			}
+			prog.Switches[key] = v
 		}
 		src := spec.Source(prog)
 		k.SetSource(src)
